@@ -1,5 +1,6 @@
 """C18 - admin commands touch seed and PIN only under their preconditions."""
 import ast
+import copy
 import re
 from sa.model import AnalysisError, Unknown, norm, unwrap, EnumMember, Obj
 from sa.query import Facts, call_name, find_calls, try_fold, calls_in, defs_of, make_facts
@@ -143,10 +144,25 @@ def pin_relay(run, rid="R6"):
         if len(body_calls) == 1 and len(body_calls[0].args) == 2 and X is not None:
             c = body_calls[0]
             m_ = P.const_eval(c.args[0], sp.module, cls=D) if True else None
-            payload = lf.deep(c.args[1], stop=(idx,) + ((byte[1],) if byte and byte[0] == "name" else ()))
+            # locals built inside the loop body just before the exchange (`payload = bytes([i, x[i]])`) stand for their expressions
+            body_ok = isinstance(loop.body[-1], ast.Expr) and loop.body[-1].value is c
+            sub_ = {}
+            for st_ in loop.body[:-1]:
+                if isinstance(st_, ast.Assign) and len(st_.targets) == 1 and isinstance(st_.targets[0], ast.Name) and st_.targets[0].id not in sub_ \
+                        and st_.targets[0].id not in (idx, byte[1]) \
+                        and all(norm(x.func) in ("bytes", "len", "int") for x in ast.walk(st_.value) if isinstance(x, ast.Call)):
+                    from sa.normalize import _ConstSub
+                    sub_[st_.targets[0].id] = _ConstSub(dict(sub_)).visit(copy.deepcopy(st_.value)) if sub_ else st_.value
+                else:
+                    body_ok = False
+            a1_ = c.args[1]
+            if sub_:
+                from sa.normalize import _ConstSub
+                a1_ = _ConstSub(sub_).visit(copy.deepcopy(a1_))
+            payload = lf.deep(a1_, stop=(idx,) + ((byte[1],) if byte and byte[0] == "name" else ()))
             xs_ = norm(ast.Subscript(value=ast.parse(X, mode="eval").body, slice=ast.Name(id=idx, ctx=ast.Load()), ctx=ast.Load()))
             wantp = f"bytes([{idx}, {xs_}])" if byte[0] == "index" else f"bytes([{idx}, {byte[1]}])"
-            oks = isinstance(m_, EnumMember) and m_.name == "SEND_PIN" and _strip(norm(payload)) == _strip(wantp) and len(loop.body) == 1
+            oks = isinstance(m_, EnumMember) and m_.name == "SEND_PIN" and _strip(norm(payload)) == _strip(wantp) and body_ok
         run.check(rid, oks, f"[prepend_length={bool(p_)}] each byte is sent as SEND_PIN | index | byte", key=f"_send_pin|message|{bool(p_)}", where=sp.loc(loop),
                   message=f"_send_pin's loop body is `{'; '.join(norm(x)[:60] for x in loop.body)}`; expected one SEND_PIN exchange carrying (index, byte at that index)")
     run.floor(rid, "_send_pin cases (with / without the length prefix)", n_cases, 2)
